@@ -280,13 +280,14 @@ class _ActionPrintConfig(Action):
     @staticmethod
     def print_config_if_requested(parser, cfg):
         if hasattr(parser, "print_config") and not print_config_skip.get():
-            key = parser.print_config.pop("key")
-            subparser = parser.print_config.pop("subparser")
+            print_config = parser.print_config
+            delattr(parser, "print_config")  # also when dump fails, so that it does not affect later parses
+            key = print_config.pop("key")
+            subparser = print_config.pop("subparser")
             if key is not None:
                 cfg = cfg[key]
             with parser_context(lenient_check=True):
-                sys.stdout.write(subparser.dump(cfg, **parser.print_config))
-            delattr(parser, "print_config")
+                sys.stdout.write(subparser.dump(cfg, **print_config))
             parser.exit()
 
     @staticmethod
